@@ -210,7 +210,17 @@ def r_token_consumers(rule, root=None):
                 if holder is None:
                     rule.bad("token|consumer|%s" % f["name"], "%s reads the cancel token outside a condition" % A.fn_label(f), A.where(f, c))
                     continue
-                leafs = A.branch_leaves(holder["then"])
+                # which branch runs when the token is set
+                cnd = A.strip(holder["cond"])
+                negated = False
+                while cnd.get("k") == "Unary" and cnd.get("op") == "!":
+                    negated = not negated
+                    cnd = A.strip(cnd["e"])
+                branch = holder.get("else") if negated else holder["then"]
+                if branch is None or cnd.get("k") != "MethodCall":
+                    rule.bad("token|consumer|%s" % f["name"], "%s tests the cancel token in a way the checker cannot read (`%s`)" % (A.fn_label(f), A.unparse(holder["cond"])[:40]), A.where(f, holder))
+                    continue
+                leafs = A.branch_leaves(branch)
                 bad = []
                 for leaf, _cx in leafs:
                     l_ = A.strip(leaf)
@@ -225,8 +235,8 @@ def r_token_consumers(rule, root=None):
                     rule.bad("token|consumer|%s" % f["name"], "%s answers a set cancel token with `%s`: that is an ordinary value, and whoever receives it cannot tell a cancelled run from a finished one (a cancelled build must end as None)" % (A.fn_label(f), bad[0][:40]), A.where(f, holder))
                 else:
                     rule.ok("%s turns a set token into an abort" % A.fn_label(f), file=path, line=c["ln"])
-    if n < 3:
-        rule.lost("the three polls of the cancel token (mesh recurse, two per-tile polls), found %d" % n)
+    if n < 2:
+        rule.lost("the polls of the cancel token (mesh recurse, the per-tile polls), found %d" % n)
 
 
 def r_pool_free_parameters(rule, root=None):
@@ -362,7 +372,7 @@ def run(ctx):
     ctx.guarded(r, r1_cancellation)
     r = ctx.rule("R1d", "a cancel token sent through a raw pointer carries its own reference count there and back", 2)
     ctx.guarded(r, r_token_raw)
-    r = ctx.rule("R1e", "the cancel token is consulted only where a set token becomes an abort", 3)
+    r = ctx.rule("R1e", "the cancel token is consulted only where a set token becomes an abort", 2)
     ctx.guarded(r, r_token_consumers)
     r = ctx.rule("R3c", "nothing derived from the thread pool reaches the tiling parameters", 2)
     ctx.guarded(r, r_pool_free_parameters)
